@@ -262,12 +262,12 @@ func runStress(cfg stressCfg) (res stressResult) {
 		}
 		gs := waitQuiescent()
 		if left.Load() != 0 {
-			res.Stuck = stuckStacks(gs, before, "syncutils.(*Counter)")
+			res.Stuck = stuckStacks(gs, before, "hive.go/runtime/syncutils.")
 			res.Findings = append(res.Findings, finding{"counter/update-blocked", fmt.Sprintf("stress: %d updater goroutine(s) parked for ever: %v", left.Load(), res.Stuck)})
 		} else if v := c.Get(); v != 0 {
 			res.Findings = append(res.Findings, finding{"counter/value-mismatch", fmt.Sprintf("stress: balanced updates leave the counter at %d", v)})
 		} else if n := waitersLeft.Load(); n != 0 {
-			res.Stuck = stuckStacks(gs, before, "syncutils.(*Counter).Wait")
+			res.Stuck = stuckStacks(gs, before, "hive.go/runtime/syncutils.")
 			res.Findings = append(res.Findings, finding{"counter/wait/parked-although-condition-holds", fmt.Sprintf("stress: the counter is 0 for good but %d waiter(s) (WaitIsZero / WaitIsBelow(>=1) / WaitIsAbove(<0)) are parked for ever: %v", n, res.Stuck)})
 		}
 		res.Grants = grants.Load()
@@ -324,11 +324,11 @@ func runStress(cfg stressCfg) (res stressResult) {
 		}()
 		gs := waitQuiescent()
 		if left.Load() != 0 {
-			res.Findings = append(res.Findings, finding{"stack/push-blocked", fmt.Sprintf("stress: producers parked for ever: %v", stuckStacks(gs, before, "syncutils.(*Stack"))})
+			res.Findings = append(res.Findings, finding{"stack/push-blocked", fmt.Sprintf("stress: producers parked for ever: %v", stuckStacks(gs, before, "hive.go/runtime/syncutils."))})
 			return
 		}
 		if n := consLeft.Load(); n != 0 {
-			res.Stuck = stuckStacks(gs, before, "PopOrWait")
+			res.Stuck = stuckStacks(gs, before, "hive.go/runtime/syncutils.")
 			res.Findings = append(res.Findings, finding{"stack/PopOrWait/lost-SignalShutdown-wakeup", fmt.Sprintf("stress: running=false and SignalShutdown() called after the last Push, %d consumer(s) stay parked in PopOrWait: %v", n, res.Stuck)})
 		}
 		// drain what the consumers left behind: every element exactly once, then WaitIsEmpty must return
@@ -360,7 +360,7 @@ func runStress(cfg stressCfg) (res stressResult) {
 	// mutex kinds: everybody must finish (well-formed lock/unlock pairs along an acyclic order)
 	gs := waitQuiescent()
 	if n := left.Load(); n != 0 {
-		res.Stuck = stuckStacks(gs, before, "syncutils.(*StarvingMutex)")
+		res.Stuck = stuckStacks(gs, before, "hive.go/runtime/syncutils.")
 		held := ""
 		for e := range sh {
 			held += fmt.Sprintf(" e%d{w:%d r:%d}", e, sh[e].writers.Load(), sh[e].readers.Load())
